@@ -260,7 +260,7 @@ def validate_traces(chk, traces, seed):
     r2, v2 = common.validate('SortFilesTrace', bad, name='SortFilesTraceBad')
     ok = v2[1][0] != 0
     chk.binding_demo = {'corrupted': 'final event reports one file left after release', 'verdict': list(v2[1]), 'rejected_as_expected': ok}
-    if not ok:
+    if not ok and not chk.violations:
         raise tlc.MachineryError('binding demo failed: leak trace accepted')
 
 
